@@ -25,7 +25,7 @@ MODEL = {
     "path_expr": "pathExpr / pathExprLoop", "path_list": "pathList / pathListLoop", "path_item": "pathItem", "f_string": "fString / fLoop / fText",
     "filter_map": "filterMap", "params": "params", "type_ident_field": "recordField", "type_parameters": "typeParameters",
     "record_type_assignment": "recordDecl", "enum_declaration": "enumDecl", "enum_variant": "enumVariant",
-    "parse_signature": "(not modelled: entry point for registered signatures, same helper methods)", "signature": "(not modelled)",
+    "parse_signature": "parseSignatureWith / parseSignature", "signature": "signature",
     "unescape_char": "(oracle `Ctx.lit`)", "unescape_f_string_part": "(oracle `Ctx.lit`)", "unescape_str": "(oracle `Ctx.lit`)",
     "Lexer_next": "lexNext", "Lexer_peek": "lexPeek", "Lexer_peek_many": "peekMany / fillQ / firstToks",
     "Spans_add": "addSpan / addNode", "Spans_get": "getSpan", "Spans_merge": "mergeSpans", "Span_merge": "mergeSp",
